@@ -83,15 +83,45 @@ def _irregular(pts, vals, labels=None):
     return IrregularFunctionalData(arg, val)
 
 
-def _basis(t_list, B, C):
+def _basis(t_list, B, C, family=None, is_normalized=False):
+    """Basis-expansion data: an explicit basis matrix (`name="given"`) or a NAMED family built by FDApy itself
+    (`Basis(name=family, n_functions=K, is_normalized=...)`; its values are read back from the object for the model)."""
     from FDApy.representation.argvals import DenseArgvals
     from FDApy.representation.basis import Basis
     from FDApy.representation.functional_data import BasisFunctionalData
     from FDApy.representation.values import DenseValues
 
     arg = DenseArgvals({f"input_dim_{k}": np.array(fl(t)) for k, t in enumerate(t_list)})
-    basis = Basis(name="given", argvals=arg, values=DenseValues(np.array(B, dtype=float)))
-    return BasisFunctionalData(basis, np.array(C, dtype=float))
+    C = np.array(C, dtype=float)
+    if family:
+        basis = Basis(name=family, n_functions=C.shape[1], argvals=arg, is_normalized=bool(is_normalized))
+    else:
+        basis = Basis(name="given", argvals=arg, values=DenseValues(np.array(B, dtype=float)), is_normalized=bool(is_normalized))
+    return BasisFunctionalData(basis, C)
+
+
+def _scale_comp(comp, s):
+    """The same data multiplied by the rational `s` (used for weights estimated on small-amplitude data)."""
+    c = dict(comp)
+    if "X" in c and not c["type"].startswith("basis"):
+        c["X"] = [[rs(F(x) * s) for x in r] for r in c["X"]]
+        c["int"] = False
+    if c["type"].startswith("basis"):
+        c["C"] = [[rs(F(x) * s) for x in r] for r in c["C"]]
+    if c["type"] == "irreg":
+        c["obs"] = [dict(o, y=[y if y == "nan" else rs(F(y) * s) for y in o["y"]]) for o in c["obs"]]
+    return c
+
+
+def _resolve(case, impl):
+    """A case on a named basis family gets its basis matrix from the implementation's own object
+    (exact rational value of every float); None when the basis is not usable (non-finite values)."""
+    if not case.get("family"):
+        return case
+    B = impl.get("B") if isinstance(impl, dict) else None
+    if not isinstance(B, list) or not all(math.isfinite(x) for r in B for x in r):
+        return None
+    return dict(case, B=[[rs(F(x)) for x in r] for r in B])
 
 
 def _call(f):
@@ -209,7 +239,9 @@ def _maybe_int(rng: Rng, X):
 
 def _opts(rng: Rng):
     return dict(stand=rng.random() < 0.4, integ=rng.choice(["trapz", "trapz", "simpson"]), center=rng.random() < 0.7,
-                w=rs(rng.choice([Fraction(4), Fraction(1, 4), Fraction(3), Fraction(10)])))
+                # user weights over many decades (2^-40 .. 2^40, also 3*2^k): any w > 0 must be taken as given
+                w=rs(rng.choice([Fraction(4), Fraction(1, 4), Fraction(10), Fraction(2) ** rng.randint(-40, 40), 3 * Fraction(2) ** rng.randint(-40, 40),
+                                 Fraction(2) ** rng.randint(-40, -27)])))
 
 
 def _dense_comp(rng: Rng, N, two_d=False, uniform=None):
@@ -251,13 +283,21 @@ def _irr_comp(rng: Rng, N, enc=None, lp_only=False):
     return dict(type="irreg", enc=enc, obs=obs, smooth=smooth, ck=ck)
 
 
-def _basis_comp(rng: Rng, N, two_d=False, uniform=None):
+def _basis_comp(rng: Rng, N, two_d=False, uniform=None, named=True):
     if two_d:
         m1, m2 = rng.randint(2 if not uniform else 3, 4), rng.randint(2 if not uniform else 3, 4)
         K = rng.randint(1, 3)
         B, _ = _curves(rng, K, m1 * m2, "rand")
         C, ck = _curves(rng, N, K, "rand")
-        return dict(type="basis2", t1=[rs(x) for x in _grid(rng, m1, uniform)], t2=[rs(x) for x in _grid(rng, m2, uniform)], B=_S(B), C=_S(C), ck=ck)
+        return dict(type="basis2", t1=[rs(x) for x in _grid(rng, m1, uniform)], t2=[rs(x) for x in _grid(rng, m2, uniform)], B=_S(B), C=_S(C), ck=ck,
+                    isn=rng.random() < 0.3)
+    if named and rng.random() < 0.4:
+        # a NAMED family built by FDApy (normalised or not), on domains other than [0, 1]; uniform grid (the normalisation uses Simpson's rule)
+        family = rng.choice(["bsplines", "legendre", "fourier", "wiener"])
+        K = rng.randint(4, 6) if family == "bsplines" else rng.randint(1, 5)
+        m = rng.randint(max(5, K + 1), 12)
+        C, ck = _curves(rng, N, K, rng.choice(["rand", "rand", "lowrank", "dup"]))
+        return dict(type="basis1", t=[rs(x) for x in _grid(rng, m, True)], B=None, C=_S(C), ck=ck, family=family, isn=rng.random() < 0.6)
     m = rng.randint(4, 10)
     K = rng.randint(1, min(4, m - 1))
     B, _ = _curves(rng, K, m, "rand")
@@ -275,7 +315,8 @@ def _basis_comp(rng: Rng, N, two_d=False, uniform=None):
         off = rng.choice([Fraction(100), Fraction(-7)])
         for r in C:
             r[0] += off
-    return dict(type="basis1", t=[rs(x) for x in _grid(rng, m, uniform)], B=_S(B), C=_S(C), ck=ck)
+    # the flag `is_normalized` only records how the basis was built: a given (non-orthonormal) matrix may carry it too
+    return dict(type="basis1", t=[rs(x) for x in _grid(rng, m, uniform)], B=_S(B), C=_S(C), ck=ck, family=None, isn=rng.random() < 0.3)
 
 
 def gen_cases(rng: Rng, tier):
@@ -316,11 +357,12 @@ def gen_cases(rng: Rng, tier):
                 opts["integ"], uni = "trapz", None
             comps = [_dense_comp(rng, N, uniform=uni)]
             comps.append(_dense_comp(rng, N, uniform=uni) if mix == "dd" else _dense_comp(rng, N, True, uniform=uni) if mix == "d2"
-                         else _irr_comp(rng, N, lp_only=True) if mix == "di" else _basis_comp(rng, N, uniform=uni))
+                         else _irr_comp(rng, N, lp_only=True) if mix == "di" else _basis_comp(rng, N, uniform=uni, named=False))
             if mix == "dd" and rng.random() < 0.4:
                 comps.append(_dense_comp(rng, N, uniform=uni))
             yield dict(kind=kind, mix=mix, comps=comps, **opts, ck=comps[0]["ck"],
-                       uw=[rs(rng.choice([Fraction(0), Fraction(4), Fraction(1, 4), Fraction(9)])) for _ in comps])
+                       uw=[rs(rng.choice([Fraction(0), Fraction(4), Fraction(9), Fraction(2) ** rng.randint(-40, 40), Fraction(2) ** rng.randint(-40, -27)]))
+                           for _ in comps])
 
 
 def search_cases(rng, tier):
@@ -350,10 +392,10 @@ def _build(comp):
         t1, t2 = _Fv(comp["t1"]), _Fv(comp["t2"])
         return _dense([t1, t2], _arr(comp).reshape(-1, len(t1), len(t2)))
     if t == "basis1":
-        return _basis([_Fv(comp["t"])], fl(_Fm(comp["B"])), fl(_Fm(comp["C"])))
+        return _basis([_Fv(comp["t"])], None if comp.get("family") else fl(_Fm(comp["B"])), fl(_Fm(comp["C"])), comp.get("family"), comp.get("isn"))
     if t == "basis2":
         t1, t2 = _Fv(comp["t1"]), _Fv(comp["t2"])
-        return _basis([t1, t2], np.array(fl(_Fm(comp["B"]))).reshape(-1, len(t1), len(t2)), fl(_Fm(comp["C"])))
+        return _basis([t1, t2], np.array(fl(_Fm(comp["B"]))).reshape(-1, len(t1), len(t2)), fl(_Fm(comp["C"])), None, comp.get("isn"))
     if t == "irreg":
         pts = [[float(F(x)) for x in o["t"]] for o in comp["obs"]]
         vals = [[float("nan") if y == "nan" else float(F(y)) for y in o["y"]] for o in comp["obs"]]
@@ -395,10 +437,17 @@ def _impl_grid(case, build, out):
 
     out["center"] = _call(center)
 
+    if is_basis:
+        out["B"] = _call(lambda: np.asarray(build().basis.values, dtype=float).reshape(build().basis.n_obs, -1).tolist())
+
     def normalize():
         nz = build().normalize(**opts)
-        return dict(v=_grid_vals(nz).tolist(), norm_after=np.asarray(nz.norm(**opts), dtype=float).tolist(),
-                    norm_before=np.asarray(build().norm(**opts), dtype=float).tolist())
+        o = dict(v=_grid_vals(nz).tolist(), norm_after=np.asarray(nz.norm(**opts), dtype=float).tolist(),
+                 norm_before=np.asarray(build().norm(**opts), dtype=float).tolist())
+        if is_basis:
+            # the same norm through the evaluated curves (BasisFunctionalData.norm ignores use_argvals_stand)
+            o["norm_after_grid"] = np.asarray(nz.to_grid().norm(method_integration=case["integ"]), dtype=float).tolist()
+        return o
 
     out["normalize"] = _call(normalize)
 
@@ -427,6 +476,14 @@ def _impl_grid(case, build, out):
         return dict(v=_grid_vals(r).tolist(), w=float(wt))
 
     out["rescale_user"] = _call(rescale_user)
+
+    def rescale_transfer():
+        # a weight estimated on small-amplitude data (x 2^-17) applied to other data (the FPCA transform pattern)
+        ws = float(_build(_scale_comp(case, Fraction(1, 2 ** 17))).rescale(**opts)[1])
+        r, wt = build().rescale(weights=ws, **opts)
+        return dict(v=_grid_vals(r).tolist(), w=float(wt), ws=ws)
+
+    out["rescale_transfer"] = _call(rescale_transfer)
 
     def history():
         # one object through every operation, then again: results must equal those of fresh objects
@@ -516,6 +573,15 @@ def _impl_irreg(case, out, comp=None):
         return dict(v=_vals(r), w=float(wt))
 
     out["rescale_user"] = _call(rescale_user)
+
+    def rescale_transfer():
+        ro = dict(use_argvals_stand=case["stand"], method_integration=case["integ"], **rkw)
+        small = _build(_scale_comp(comp, Fraction(1, 2 ** 17)))
+        ws = float(small.rescale(**ro)[1])
+        r, wt = build().rescale(weights=ws, **ro)
+        return dict(v=_vals(r), w=float(wt), ws=ws)
+
+    out["rescale_transfer"] = _call(rescale_transfer) if not case.get("sub") else None
 
     def history():
         # ONE object: mean / center / standardize with OTHER smoothing options first, then the options of the case
@@ -644,6 +710,9 @@ def _exact_grid(case):
 
 
 def model_lines(case, impl):
+    case = _resolve(case, impl)
+    if case is None:
+        return []
     kind = case["kind"]
     if kind in ("dense1", "basis1"):
         X = _M(_S(_exact_grid(case)))
@@ -740,6 +809,9 @@ def compare(case, impl, model):
 def _compare(case, impl, model):
     if "__crash__" in impl:
         return [f"implementation crashed: {impl['__crash__']} {impl.get('msg')}"]
+    case = _resolve(case, impl)
+    if case is None:
+        return []
     kind = case["kind"]
     outs = model["outs"]
     ds = []
@@ -938,7 +1010,12 @@ def _oracle_grid(case, impl, bad):
     else:
         for i, (nb, na) in enumerate(zip(nz["norm_before"], nz["norm_after"])):
             if nb > 1e-9 * big and not abs(na - 1) <= 1e-8:
-                bad("normalize_unit", f"observation {i} has norm {na} after normalising (options stand={case['stand']}, {case['integ']})", _entry(case, "normalize"))
+                bad("normalize_unit", f"observation {i} has norm {na} after normalising (options stand={case['stand']}, {case['integ']}"
+                    + (f", basis {case.get('family') or 'given'}, is_normalized={case.get('isn')}" if kind.startswith("basis") else "") + ")", _entry(case, "normalize"))
+                break
+            if nb > 1e-7 * big and "norm_after_grid" in nz and not abs(nz["norm_after_grid"][i] - 1) <= 1e-6:
+                bad("normalize_unit", f"observation {i}: the evaluated curves have norm {nz['norm_after_grid'][i]} after normalising "
+                    f"(basis {case.get('family') or 'given'}, is_normalized={case.get('isn')}, {case['integ']})", _entry(case, "normalize"))
                 break
     # ---- standardising
     for key, cause in (("standardize", "natural-heap"), ("standardize_adv", "nan-initialised-buffer")):
@@ -986,6 +1063,13 @@ def _oracle_grid(case, impl, bad):
         w = float(F(case["w"]))
         if np.abs(np.array(ru["v"]) * math.sqrt(w) - X).max() > 1e-9 * big or ru["w"] != w:
             bad("rescale_user_weight", f"rescale(weights={w}) does not divide the values by sqrt(w)", _entry(case, "rescale"))
+    rt = impl.get("rescale_transfer")
+    if rt is not None and not _err(rt) and rt["ws"] > 0 and math.isfinite(rt["ws"]):
+        if rt["w"] != rt["ws"] or np.abs(np.array(rt["v"]) * math.sqrt(rt["ws"]) - X).max() > 1e-9 * big:
+            bad("rescale_user_weight", f"a weight {rt['ws']} estimated on small-amplitude data and passed as weights= is not used as given "
+                f"(returned {rt['w']}; values / sqrt(w) expected)", _entry(case, "rescale"), ["transfer"])
+    elif rt is not None and _err(rt) and not _err(r):
+        bad("runs", f"rescale with a transferred weight raised {rt['error']}: {rt.get('msg')}", _entry(case, "rescale"), causes_b2)
     # ---- history: the same object again, and after replacing its values
     h = impl["history"]
     if not _err(h):
@@ -1081,6 +1165,12 @@ def _oracle_irreg(case, impl, bad, comp=None):
             bad("rescale_reestimate_one", f"irregular data: re-estimated weight {r['w_again']} (weight {r['w']})", _entry(case, "rescale"))
     elif not r["w"] >= 0:
         bad("rescale_weight", f"irregular rescale weight {r['w']}", _entry(case, "rescale"), ["nan-weight"])
+    rt = impl.get("rescale_transfer")
+    if rt is not None and not _err(rt) and rt["ws"] > 0 and math.isfinite(rt["ws"]):
+        okv = all(not math.isfinite(a) or abs(b * math.sqrt(rt["ws"]) - a) <= 1e-9 * max(1.0, abs(a)) for x, v in zip(vals, rt["v"]) for a, b in zip(x, v))
+        if rt["w"] != rt["ws"] or not okv:
+            bad("rescale_user_weight", f"irregular data: a weight {rt['ws']} estimated on small-amplitude data and passed as weights= is not used as given "
+                f"(returned {rt['w']})", _entry(case, "rescale"), ["transfer"])
     ru = impl["rescale_user"]
     if _err(ru):
         bad("runs", f"rescale(weights=w) raised {ru['error']}: {ru.get('msg')}", _entry(case, "rescale"), sub)
@@ -1193,6 +1283,9 @@ def oracle(case, impl):
         vs.append(dict(clause=clause, entry=entry, msg=msg, causes=list(causes)))
 
     kind = case["kind"]
+    case = _resolve(case, impl)
+    if case is None:
+        return vs  # named basis with non-finite values (e.g. too few functions for the B-spline degree): C18's matter, counted in classify
     if kind in ("dense1", "dense2", "basis1", "basis2"):
         _oracle_grid(case, impl, bad)
     elif kind == "irreg":
@@ -1227,6 +1320,13 @@ def classify(case, impl):
         tags.append("layout:fortran")
     if case.get("sized"):
         tags.append("size-threshold:" + str(len(case["X"])))
+    if case["kind"].startswith("basis"):
+        tags.append("basis:" + str(case.get("family") or "given") + (":is_normalized" if case.get("isn") else ""))
+        if case.get("family") and _resolve(case, impl) is None:
+            tags.append("skipped:named-basis-not-finite")
+    if "w" in case:
+        lw = math.log2(float(F(case["w"])))
+        tags.append("user-weight:" + ("<2^-27" if lw < -27 else "<1" if lw < 0 else "<2^27" if lw < 27 else ">=2^27"))
     if isinstance(impl, dict):
         s = impl.get("standardize_adv")
         if isinstance(s, dict) and s.get("hits"):
